@@ -129,7 +129,7 @@ def check_c07(pid, tier, seed, res, work):
     if tier == 'thorough':
         plan.append((5, 'slow'))     # seconds of parsing per file: thorough tier only
     # many SMALL files: far more than any fixed queue length or batch size somebody might introduce
-    plan.append((450 if tier == 'quick' else 2500, 'many'))
+    plan.append((1100 if tier == 'quick' else 2500, 'many'))
     for pi, (n, dangling) in enumerate(plan):
         slow = dangling == 'slow'
         many = dangling == 'many'
@@ -161,6 +161,27 @@ def check_c07(pid, tier, seed, res, work):
                 if rr.get('race'):
                     res.violations.append(dict(property='C07', what='data race during graph.Initialize', detail=rr['error'],
                                                project=[(p, d.decode('utf-8', 'replace')) for p, d in files], how='harness built with -race, `orders` on the project'))
+        if many:
+            # the results of QUERIES over that project are as repeatable as the scan: the same rows whatever the number
+            # of CPUs (one query without WHERE, two with more candidate rows than a batch is likely to hold)
+            mq = [('mq0', 'FROM method_declaration AS m SELECT m.getName()'), ('mq1', 'FROM method_declaration AS m WHERE m.getName() == "m" SELECT m.getName()'),
+                  ('mq2', 'FROM variable_declaration AS v WHERE v.getVariableValue() != "0 + 1" SELECT v.getName()')]
+            base_rows = None
+            for procs in ('16', '1', '2', '3', '4', '64'):
+                rq, _ = qrun.run_queries(proj, mq, work + '/manyq', env_extra=dict(GOMAXPROCS=procs))
+                rows = {q_: (rq.get(q_, ('missing', ''))[0], Counter(map(lambda r_: json.dumps(r_), (qrun.parse_result(rq[q_][1])[1] or []))) if rq.get(q_, ('', ''))[0] == 'ok' else None) for q_, _ in mq}
+                stats['query_runs_across_cpus'] += 1
+                if base_rows is None:
+                    base_rows = rows
+                    if rows['mq0'][1] is None or sum(rows['mq0'][1].values()) != n:
+                        res.violations.append(dict(property='C07', what='%s methods reported for %d files with one method each' % (sum(rows['mq0'][1].values()) if rows['mq0'][1] is not None else 'no', n), how='harness queries on the many-small-files project'))
+                        break
+                elif rows != base_rows:
+                    qd = next(q_ for q_, _ in mq if rows[q_] != base_rows[q_])
+                    res.violations.append(dict(property='C07', what='a query over the scanned project gives other rows under GOMAXPROCS=%s than under 16' % procs, query=dict(mq)[qd],
+                                               detail='%s rows vs %s rows' % (sum(rows[qd][1].values()) if rows[qd][1] is not None else rows[qd][0], sum(base_rows[qd][1].values()) if base_rows[qd][1] is not None else base_rows[qd][0]),
+                                               project='%d files T<nnnn>.java: class T<nnnn> { int f<n> = <n> + 1; void m() { g(<n>); } }' % n, how='GOMAXPROCS=%s pathfinder query --project D --output json --query <query>' % procs))
+                    break
         r = orders_run(proj, work, 1 if slow else (2 if many else (6 if tier == 'quick' else 30)), seed + pi)
         if 'error' in r:
             res.tie_broken.append('orders campaign could not run: ' + r['error'])
